@@ -166,7 +166,14 @@ def scenario(args):
     ev.sort(key=lambda x: (x[0], x[1]))
     final = [dict(n=a, proj=net.rfapi.state(ns.chips[nm]), lvl=ns.objs[nm].multicast_level, amc=bool(ns.objs[nm].allow_multicast))
              for a, nm in name.items()]
-    out = [dict(e, t=t) for (t, _, e) in ev] + [dict(k="end", nodes=final)]
+    out = [e for (t, _, e) in ev]
+    crashes = [e for e in out if e["k"] == "crash"]
+    if crashes:
+        # the run was cut short (a call that never returns, a network that never becomes quiet, an exception out of a node):
+        # the monitor follows the first part of the execution and then meets the crash event itself
+        out = [e for e in out if e["k"] != "crash"][:1500] + crashes[:1]
+    else:
+        out.append(dict(k="end", nodes=final))
     # the callers' own ids: the model compares whole frames, the write event carries the id the header got
     return dict(topo=topo, ev=out, prefix=ns.prefix, suffix=ns.suffix, meta=dict(topo=topo, kind=kind, spec=[list(map(str, x)) for x in spec] if kind != "backlog" else str(spec),
                                              faults=[dict(r) for r in faults], seed=seed, jitter=jitter))
